@@ -1,10 +1,150 @@
 import SkaModel.Core.Proto
+import SkaModel.Core.Budget
+import SkaModel.Core.Stream
 
-/-! Driver commands for the `Budget` model family. One self-contained case per line. -/
+/-! Driver commands for the `Budget` model family (budget managers, baseline stream strategies).
+One complete stream per line:
+
+`<cmd> <params…> <k> {<size> <0|1 [<m> idx…]>}×k  <inputs…>`
+
+Every chunk is processed as `idx = query(chunk); update(chunk, idx)`; a chunk with flag `1` passes the
+explicit index list to `update` instead of the query result. Output: one segment per chunk, joined by
+` ; `: `<queried indices> | [<utilities> |] ok <state>`; a failing update prints `err index-error` and
+ends the case. Doubles travel as bit patterns. -/
 
 namespace Ska.Drv.Budget
-open Ska Ska.Proto
+open Ska Ska.Proto Ska.Budget
 
-def handlers : List (String × P String) := []
+instance : NatCast Float := ⟨Float.ofNat⟩
+
+structure Chunk where
+  size : Nat
+  ovr : Option (List Nat)
+
+def chunkP : P Chunk := do
+  let n ← nat
+  let o ← bool
+  if o then
+    let l ← listOf nat
+    pure ⟨n, some l⟩
+  else pure ⟨n, none⟩
+
+def total (cs : List Chunk) : Nat := (cs.map (·.size)).foldl (· + ·) 0
+
+def stream (l : List Float) : Nat → Float :=
+  let a := l.toArray
+  fun i => a.getD i 0
+
+/-- run the chunks; `qx` renders what else `query` returns (utilities of the baseline strategies) -/
+def runCase {σ ι : Type} (M : Mgr σ ι) (showS : σ → String) (qx : σ → List ι → String) :
+    σ → List Chunk → List ι → List String
+  | _, [], _ => []
+  | s, c :: cs, xs =>
+    let chunk := xs.take c.size
+    let q := M.query s chunk
+    let idx := c.ovr.getD q.1
+    let head := showNats q.1 ++ " |" ++ qx s chunk
+    match M.update q.2 chunk idx with
+    | .ok s' => (head ++ " ok " ++ showS s') :: runCase M showS qx s' cs (xs.drop c.size)
+    | .error _ => [head ++ " err index-error"]
+
+def render (l : List String) : String := " ; ".intercalate l
+
+def noX {σ ι : Type} (_ : σ) (_ : List ι) : String := ""
+
+def showZ (s : ZState Float) : String := s!"{showFloat s.u} {showFloat s.theta} {s.rng}"
+def showD (s : DState Float) : String := s!"{s.u} {s.t} {showFloat s.theta} {s.rng}"
+def showQ (s : QState Float) : String := s!"{s.obs} {s.qd} {showOptFloats s.hist}"
+def showC (s : CState) : String := s!"{s.obs} {s.qd} {s.rng}"
+
+/-- `bm_fixed w b nc  chunks  utils` -/
+def cmdFixed : P String := do
+  let w ← float; let b ← float; let nc ← float
+  let cs ← listOf chunkP
+  let us ← listOf optFloat
+  let p : ZParams Float := { w := w, b := b, s := 0, v := 0, nc := nc }
+  pure (render (runCase (fixedMgr p) showZ noX { u := 0, theta := 0, rng := 0 } cs us))
+
+/-- `bm_var w b s theta0  chunks  utils` -/
+def cmdVar : P String := do
+  let w ← float; let b ← float; let s ← float; let th ← float
+  let cs ← listOf chunkP
+  let us ← listOf optFloat
+  let p : ZParams Float := { w := w, b := b, s := s, v := 0, nc := 0 }
+  pure (render (runCase (varMgr p) showZ noX { u := 0, theta := th, rng := 0 } cs us))
+
+/-- `bm_randvar w b s theta0  chunks  utils  normal-stream` -/
+def cmdRandVar : P String := do
+  let w ← float; let b ← float; let s ← float; let th ← float
+  let cs ← listOf chunkP
+  let us ← listOf optFloat
+  let nz ← listOf float
+  let p : ZParams Float := { w := w, b := b, s := s, v := 0, nc := 0 }
+  pure (render (runCase (randVarMgr p (stream nz)) showZ noX { u := 0, theta := th, rng := 0 } cs us))
+
+/-- `bm_split w b s v theta0  chunks  utils  uniform-stream` -/
+def cmdSplit : P String := do
+  let w ← float; let b ← float; let s ← float; let v ← float; let th ← float
+  let cs ← listOf chunkP
+  let us ← listOf optFloat
+  let uz ← listOf float
+  let p : ZParams Float := { w := w, b := b, s := s, v := v, nc := 0 }
+  pure (render (runCase (splitMgr p (stream uz)) showZ noX { u := 0, theta := th, rng := 0 } cs us))
+
+/-- `bm_random w b  chunks  utils  uniform-stream` -/
+def cmdRandom : P String := do
+  let w ← float; let b ← float
+  let cs ← listOf chunkP
+  let us ← listOf optFloat
+  let uz ← listOf float
+  let p : ZParams Float := { w := w, b := b, s := 0, v := 0, nc := 0 }
+  pure (render (runCase (randomMgr p (stream uz)) showZ noX { u := 0, theta := 0, rng := 0 } cs us))
+
+/-- `bm_dbsplit b s theta0  chunks  utils  normal-stream` -/
+def cmdDb : P String := do
+  let b ← float; let s ← float; let th ← float
+  let cs ← listOf chunkP
+  let us ← listOf optFloat
+  let nz ← listOf float
+  let p : DParams Float := { b := b, s := s }
+  pure (render (runCase (dbMgr p (stream nz)) showD noX { u := 0, t := 0, theta := th, rng := 0 } cs us))
+
+/-- the windows `np.quantile` is called on, in call order, when the utilities `us` arrive -/
+def windows (w : Nat) : List (Option Float) → List (Option Float) → List (List (Option Float))
+  | _, [] => []
+  | h, x :: xs => let h' := pushW w h x; h' :: windows w h' xs
+
+/-- `bm_biqf w w_tol b  chunks  utils  thetas` — `thetas[i]` is the value `np.quantile` returned for
+instance `i`; the oracle handed to the model is the finite map window ↦ captured value. -/
+def cmdBiqf : P String := do
+  let w ← nat; let wtol ← float; let b ← float
+  let cs ← listOf chunkP
+  let us ← listOf optFloat
+  let ths ← listOf optFloat
+  let table := ((windows w [] us).map showOptFloats).zip ths
+  let qf : List (Option Float) → Option Float := fun h => (table.lookup (showOptFloats h)).getD none
+  let p : QParams Float := { w := w, wtol := wtol, b := b }
+  pure (render (runCase (biqfMgr p qf) showQ noX { obs := 0, qd := 0, hist := [] } cs us))
+
+/-- `sb_random allow b  chunks  uniform-stream` -/
+def cmdSrs : P String := do
+  let allow ← bool; let b ← float
+  let cs ← listOf chunkP
+  let uz ← listOf float
+  let uni := stream uz
+  let qx : CState → List Unit → String := fun s c => " " ++ showFloats (srsQuery allow b uni s c.length).1.2 ++ " |"
+  pure (render (runCase (srsMgr allow b uni) showC qx { obs := 0, qd := 0, rng := 0 } cs (List.replicate (total cs) ())))
+
+/-- `sb_periodic b  chunks` -/
+def cmdPer : P String := do
+  let b ← float
+  let cs ← listOf chunkP
+  let qx : CState → List Unit → String := fun s c => " " ++ showFloats (perQuery b s c.length).1.2 ++ " |"
+  pure (render (runCase (perMgr b) showC qx { obs := 0, qd := 0, rng := 0 } cs (List.replicate (total cs) ())))
+
+def handlers : List (String × P String) :=
+  [ ("bm_fixed", cmdFixed), ("bm_var", cmdVar), ("bm_randvar", cmdRandVar), ("bm_split", cmdSplit),
+    ("bm_random", cmdRandom), ("bm_dbsplit", cmdDb), ("bm_biqf", cmdBiqf),
+    ("sb_random", cmdSrs), ("sb_periodic", cmdPer) ]
 
 end Ska.Drv.Budget
